@@ -13,7 +13,7 @@ use std::sync::Arc;
 
 pub const MAX_POS: u64 = u64::MAX; // stream has 2^64-1 bytes: positions 0 ..= 2^64-1
 
-fn d<'a>(sh: &'a Shared, idx: usize, off: usize, len: usize) -> Result<&'a [u8], OpErr> {
+pub fn d<'a>(sh: &'a Shared, idx: usize, off: usize, len: usize) -> Result<&'a [u8], OpErr> {
     let v = sh.data.get(idx).ok_or(OpErr::Skip)?;
     if off > v.len() || len > v.len() - off {
         return Err(OpErr::Skip);
@@ -85,7 +85,7 @@ pub fn twin_xof(m: &MMode, input: &[u8], pos: u64, n: usize) -> Vec<u8> {
     })
 }
 
-fn hx(b: &[u8]) -> String {
+pub fn hx(b: &[u8]) -> String {
     if b.len() <= 48 {
         model::hex(b)
     } else {
@@ -93,7 +93,7 @@ fn hx(b: &[u8]) -> String {
     }
 }
 
-fn first_diff(a: &[u8], b: &[u8]) -> usize {
+pub fn first_diff(a: &[u8], b: &[u8]) -> usize {
     a.iter().zip(b.iter()).position(|(x, y)| x != y).unwrap_or(a.len().min(b.len()))
 }
 
@@ -590,7 +590,8 @@ pub fn do_op(sh: &Arc<Shared>, local: &mut TaskLocal, op: &Op) -> OpResult {
                 }
             }
             let mode = hs.mode.clone();
-            local.slots.insert(*cv, Slot::Cv(CvSlot { cv: got, mode, span: None }));
+            let (bytes, off) = (hs.absorbed.clone(), hs.offset);
+            local.slots.insert(*cv, Slot::Cv(CvSlot { cv: got, mode, bytes: Some(bytes), off }));
             Ok(Fnv::of(&got))
         }
         Op::CloneH { h, new } => {
